@@ -2,6 +2,7 @@ package props
 
 import (
 	"fmt"
+	"strings"
 
 	tls "github.com/refraction-networking/utls"
 
@@ -202,17 +203,91 @@ func c10EditedShares(clients []gridClient) *explore.Scenario {
 	}
 }
 
+// c10Compressing: a compliant server may answer compress_certificate by compressing its certificate, and
+// may ask for a client certificate in the same flight (CertificateRequest precedes the certificate): every
+// parrot that advertises certificate compression must complete against it, for each algorithm it lists.
+func c10Compressing() *explore.Scenario {
+	var clients []gridClient
+	for _, g := range gridClients(0, false) {
+		if g.Spec != nil || isGolang(g.ID) {
+			continue
+		}
+		if sp, err := tls.UTLSIdToSpec(g.ID); err == nil {
+			for _, e := range sp.Extensions {
+				if _, ok := e.(*tls.UtlsCompressCertExtension); ok {
+					clients = append(clients, g)
+					break
+				}
+			}
+		}
+	}
+	encs := c21Encoders()
+	return &explore.Scenario{
+		Name: "server-compresses-its-certificate",
+		Run: func(x *explore.X) (r explore.Result) {
+			if len(clients) == 0 {
+				r.Violate("INFRA|c10-no-compressing-parrot", "no parrot advertises compress_certificate")
+				return
+			}
+			g := clients[x.Choose("client", len(clients))]
+			pick := x.Choose("alg", 3) + 1
+			clientAuth := x.Choose("server-requests-client-certificate", 2) == 1
+			sp, _ := tls.UTLSIdToSpec(g.ID)
+			adv := false
+			for _, e := range sp.Extensions {
+				if c, ok := e.(*tls.UtlsCompressCertExtension); ok {
+					for _, a := range c.Algorithms {
+						if int(a) == pick {
+							adv = true
+						}
+					}
+				}
+			}
+			if !adv {
+				r.Obs = "algorithm-not-offered"
+				return
+			}
+			var e encoder
+			for _, c := range encs {
+				if int(c.alg) == pick && strings.HasSuffix(c.name, "flush512") {
+					e = c
+					break
+				}
+			}
+			cs := c21Case{certName: "chain3", enc: e, declared: func(n int) int { return n }, expect: "ok", client: &g, clientAuth: clientAuth}
+			what := fmt.Sprintf("%s vs a server compressing its certificate with %s, client certificate requested=%v", g.Name, e.name, clientAuth)
+			hs, _, rep := runC21(&cs)
+			if !rep {
+				r.Obs = "no-tls13"
+				return
+			}
+			r.Nontrivial = true
+			r.Class = what
+			if hs.CPanic != "" {
+				r.Violate("C10|panic", "%s: %s", what, truncStr(hs.CPanic, 300))
+				return
+			}
+			if !(hs.OK() && hs.EchoOK) {
+				r.Violate(fmt.Sprintf("C10|handshake-fails|compressing-server|clientauth=%v|%s", clientAuth, truncStr(errClass(hs.CErr), 60)), "%s: client %v / server %v", what, hs.CErr, hs.SErr)
+			}
+			r.Count("completed", 1)
+			r.Obs = fmt.Sprintf("done=%v", hs.OK())
+			return
+		},
+	}
+}
+
 func c10Scenarios(thorough bool) []*explore.Scenario {
 	if thorough {
-		return []*explore.Scenario{c10Grid("grid-full-product", append(gridClients(64, true), shareListClients(3)...), -1), c10EditedShares(gridClients(64, true))}
+		return []*explore.Scenario{c10Grid("grid-full-product", append(gridClients(64, true), shareListClients(3)...), -1), c10EditedShares(gridClients(64, true)), c10Compressing()}
 	}
-	return []*explore.Scenario{c10Grid("grid-pairs", append(gridClients(3, true), shareListClients(3)...), 2), c10EditedShares(gridClients(8, true))}
+	return []*explore.Scenario{c10Grid("grid-pairs", append(gridClients(3, true), shareListClients(3)...), 2), c10EditedShares(gridClients(8, true)), c10Compressing()}
 }
 
 func init() {
 	register(&Prop{ID: "C10", Level: "exploration", Variant: "A", Scenarios: c10Scenarios,
 		Run: func(c *explore.Check, thorough bool) {
-			c.Rule = "client in {every discovered ID, 3 (64) enumerated seeds per randomized kind, 5 handshake-capable custom specs, 85 custom specs carrying every ordered key_share list of <=3 distinct groups among {X25519MLKEM768, X25519Kyber768Draft00, X25519, P-256, P-384}, fingerprinted copy of every parrot} x server configuration chosen only among values the on-wire hello offers and the utls server implements: version {1.3,1.2,1.1,1.0 as offered} x CurvePreferences {default, each offered group incl. ones without a share => HRR} x pinned TLS 1.2 suite {default, each offered} x certificate kind {ECDSA, RSA, Ed25519 as verifiable by the offered signature algorithms} x ALPN {none, each offered}; client-side deviations (<=1): Config.NextProtos, Config knob {SessionTicketsDisabled, ClientSessionCache, DynamicRecordSizingDisabled, RenegotiateFreelyAsClient, PreferSkipResumptionOnNilExtension}, build order {Handshake, BuildHandshakeState+Handshake, BuildHandshakeStateWithoutSession+BuildHandshakeState+Handshake}; server-axis deviations <=2 (quick) / full product (thorough). Plus: every client with two or more classical key shares x each share removed from the KeyShareExtension after BuildHandshakeState x the server forced to each listed classical group (HelloRetryRequest when it is the removed one). Oracle: handshake completes on both sides and 1 KiB echoes both ways. distinct = (client, server choice)"
+			c.Rule = "client in {every discovered ID, 3 (64) enumerated seeds per randomized kind, 5 handshake-capable custom specs, 85 custom specs carrying every ordered key_share list of <=3 distinct groups among {X25519MLKEM768, X25519Kyber768Draft00, X25519, P-256, P-384}, fingerprinted copy of every parrot} x server configuration chosen only among values the on-wire hello offers and the utls server implements: version {1.3,1.2,1.1,1.0 as offered} x CurvePreferences {default, each offered group incl. ones without a share => HRR} x pinned TLS 1.2 suite {default, each offered} x certificate kind {ECDSA, RSA, Ed25519 as verifiable by the offered signature algorithms} x ALPN {none, each offered}; client-side deviations (<=1): Config.NextProtos, Config knob {SessionTicketsDisabled, ClientSessionCache, DynamicRecordSizingDisabled, RenegotiateFreelyAsClient, PreferSkipResumptionOnNilExtension}, build order {Handshake, BuildHandshakeState+Handshake, BuildHandshakeStateWithoutSession+BuildHandshakeState+Handshake}; server-axis deviations <=2 (quick) / full product (thorough). Plus: every client with two or more classical key shares x each share removed from the KeyShareExtension after BuildHandshakeState x the server forced to each listed classical group (HelloRetryRequest when it is the removed one). Plus: every parrot advertising compress_certificate x each algorithm it lists x {no, a} CertificateRequest in the same flight against a server that compresses its certificate (verif hook). Oracle: handshake completes on both sides and 1 KiB echoes both ways. distinct = (client, server choice)"
 			c.Assumptions = []string{"server choices are restricted (by a small negotiation model over the parsed on-wire hello) to ones a compliant server must accept, so every failure is a violation; who aborted is classified from the error texts", "peer is utls's own Server (TLS 1.3 suite selection not pinned); PSK parrots run with OmitEmptyPsk"}
 			runAll(c, c10Scenarios(thorough), 0)
 			c.Gate(c.Total.Counters["completed"] > 1000, "non-vacuity: completed=%d", c.Total.Counters["completed"])
